@@ -122,6 +122,8 @@ def run(repo, rep):
     rule_create_palette_executed(repo, rep, enc)
     rep.clause("C07-t", "reorder: IFM block depth 32 for 8-bit depth-first, 16 for 16-bit IFMs and for part-kernel-first (initialiser evaluated for the four combinations)")
     rule_reorder_block_depth(repo, rep, enc)
+    rep.clause("C07-v", "out-of-range weights are rejected, not wrapped: the entry points hand the caller's volume to the codec without a narrowing conversion (expected count 0, matcher exercised)")
+    rule_no_silent_narrowing(repo, rep)
     rep.clause("C07-u", "an encoding is a function of the volume handed in: the weight compressor keeps no process-wide memo besides the reviewed compression cache [rule shared with C14-a]")
     from . import c14 as _c14
 
@@ -945,6 +947,8 @@ def rule_create_palette_executed(repo, rep, enc, rule="C07-s"):
         "int8 flat with -128": hist([(w, 5) for w in range(-128, 128)]),
         "peaked around 3 with rare 255": hist([(3, 1000), (2, 500), (4, 400), (-1, 300), (255, 2), (-255, 1), (40, 3)]),
         "only five values": hist([(0, 50), (1, 40), (-1, 30), (7, 20), (-9, 10)]),
+        "flat -40..40 and one +64 (largest code 128 = 2^7)": hist([(w, 10) for w in range(-40, 41)] + [(64, 1)]),
+        "palette with +4 (code 8 = 2^3) as its largest entry": hist([(0, 50), (1, 40), (-1, 30), (4, 20), (2, 10)]),
         "magnitudes 16..80, two peaks": hist([(w, 3) for w in range(16, 81)] + [(-w, 3) for w in range(16, 81)] + [(40, 400), (-40, 300)]),
     }
     n = 0
@@ -974,7 +978,7 @@ def rule_create_palette_executed(repo, rep, enc, rule="C07-s"):
                 if direct and (max(direct) > 511 or min(direct) < palsize):
                     bad = f"direct index range {min(direct)}..{max(direct)} outside {palsize}..511"
             rep.check(bad is None, rule, site, f"histogram '{name}', zero runs {zr}: every occurring weight is representable (palsize {palsize}, PALBITS {palbits})", bad or "")
-    if n < 10:
+    if n < 14:
         raise AnalysisError("create_palette: cases not executed")
 
 
@@ -997,3 +1001,47 @@ def rule_reorder_block_depth(repo, rep, enc):
         except CEvalError as ex:
             raise AnalysisError(f"reorder: ifm_block_depth initialiser not evaluable: {ex}")
         rep.check(got == w, "C07-t", site, f"ifm_block_depth(part kernel {pk}, {bits}-bit IFM) = {w}", f"evaluates to {got}: the depth-first stream of a 16-bit IFM is laid out in blocks of {got} channels, the hardware reads blocks of 16")
+
+    # the last IFM block of a depth-first stream is padded to the full block depth (the hardware reads whole blocks); only part-kernel-first
+    # clips it to the channels that are left
+    asg = [d for d in enc.walk(body) if d.get("kind") == "BinaryOperator" and d.get("opcode") == "=" and enc.text(d["inner"][0]).strip() == "clipped_ifm_block_depth"]
+    if len(asg) < 2:
+        raise AnalysisError(f"reorder: {len(asg)} assignments of clipped_ifm_block_depth")
+    rhs = asg[-1]["inner"][1]
+    for pk, w in ((0, 32), (1, 8)):
+        try:
+            got = c_eval(rhs, {"is_partkernel": pk, "ifm_block_depth": 32, "ifm_depth": 40, "ifm_block_z": 32}, enc)
+        except CEvalError as ex:
+            raise AnalysisError(f"reorder: clipped_ifm_block_depth not evaluable: {ex}")
+        rep.check(got == w, "C07-t", site, f"last IFM block of 8 remaining channels, part kernel {pk}: block depth {w}",
+                  f"evaluates to {got}: a depth-first stream loses the zero padding of its last IFM block - shorter than and shifted against the hardware order")
+
+def rule_no_silent_narrowing(repo, rep):
+    """(v) 'out-of-range weights are rejected, not wrapped': between the public entry point and the codec nothing converts the caller's
+    weight volume to a narrower integer type (`astype(int16)` turns 65541 into 5, which the range check of the encoder then accepts). The
+    parameters that carry the volume in api.npu_encode_weights and weight_compressor.encode_weights are never the receiver of astype /
+    a narrowing numpy constructor (expected count 0; the matcher is exercised on a positive example)."""
+    def narrowing(tree, names):
+        out = []
+        for c in ast.walk(tree):
+            if isinstance(c, ast.Call) and isinstance(c.func, ast.Attribute) and c.func.attr == "astype" and isinstance(c.func.value, ast.Name) and c.func.value.id in names:
+                out.append(c)
+            if isinstance(c, ast.Call) and (call_name(c) or "").split(".")[-1] in ("int16", "int8", "uint8", "uint16") and c.args and isinstance(c.args[0], ast.Name) and c.args[0].id in names:
+                out.append(c)
+        return out
+
+    if len(narrowing(ast.parse("v = weights_volume.astype(numpy.int16)"), {"weights_volume"})) != 1:
+        raise AnalysisError("narrowing matcher does not match its positive example")
+    n = 0
+    for mn, q in (("api", "npu_encode_weights"), ("weight_compressor", "encode_weights")):
+        m = repo.mod(mn)
+        fn = m.func(q)
+        names = {a.arg for a in fn.args.args if "weight" in a.arg or "volume" in a.arg}
+        if not names:
+            raise AnalysisError(f"{q}: weight volume parameter not found")
+        n += 1
+        hits = narrowing(fn, names)
+        rep.check(not hits, "C07-v", f"{m.rel}:{q}", f"the weight volume {sorted(names)} reaches the codec in the caller's type",
+                  f"`{str(norm(hits[0]))[:70]}` narrows it first: an out-of-range weight wraps into the legal range (65541 is encoded as 5) instead of being rejected" if hits else "")
+    if n < 2:
+        raise AnalysisError("weight entry points not found")
